@@ -38,6 +38,12 @@
 (*   CmdFreshTicket  a search command draws a new ticket every time it is  *)
 (*                 executed (TRUE = the code as found; FALSE = an instance *)
 (*                 executed again re-uses its ticket)                      *)
+(*   TimeoutUsesRemove  _timeout_search_request unregisters the request     *)
+(*                 with remove_request (TRUE; FALSE = the code as found:   *)
+(*                 `del self.requests[ticket]`): remove_request cancels    *)
+(*                 the request's timer, whose task is the one running the  *)
+(*                 handler, so the report is cut short at the first        *)
+(*                 listener that really suspends                           *)
 (*   EmitBeforeClose  _on_peer_search_reply looks the request up and       *)
 (*                 reports the result in one stretch, before it awaits     *)
 (*                 connection.disconnect (TRUE = the code as found; FALSE  *)
@@ -59,7 +65,10 @@ CONSTANTS
   MaxOps, MaxTime, MaxTasks, MaxTicket,
   MaxHeld,       \* replies that arrive on a connection whose close takes a while (in flight at most)
   MaxSHeld,      \* searches whose SearchRequestSentEvent is delivered to a listener that suspends
-  UnsetGuard, RemoveCancels, SharedGen, EmitBeforeClose, StartBeforeEmit, CmdFreshTicket
+  LstCode,       \* the application's listeners of SearchRequestRemovedEvent, in registration order:
+                 \* a string over s (plain function), a (coroutine that does not suspend),
+                 \* u (coroutine that really suspends once); "-" = none
+  UnsetGuard, RemoveCancels, SharedGen, EmitBeforeClose, StartBeforeEmit, CmdFreshTicket, TimeoutUsesRemove
 
 VARIABLES
   now,
@@ -73,6 +82,7 @@ VARIABLES
   ticket,    \* e -> ticket of the request (0: none)
   armed,     \* e -> a deadline is pending for e according to the calls made so far
   adl,       \* e -> that deadline
+  owed,      \* reports of a removal not yet made: set of <<e, i>>, i = listener
   hs,        \* replies whose handler does not finish at once: sequence of [tk, n, cont, open] -
              \* ticket, results reported for it, the request that was live under tk when the reply
              \* arrived and has stayed live since (0: none), handler still running
@@ -94,17 +104,24 @@ VARIABLES
   errs,      \* exceptions that reached the loop exception handler so far
   q          \* the loop is quiescent (nothing but the driver is ready, nothing is due)
 
-abst    == <<kind, status, ticket, armed, adl, hs>>
+abst    == <<kind, status, ticket, armed, adl, hs, owed>>
 conf    == <<rt, wt>>
 micro   == <<requests, gen, tmo, handle, task, ready, wl, hc, sc, nops>>
 hist    == <<op, out, ran, errs, q>>
-vars    == <<now, rt, wt, srvIval, kind, status, ticket, armed, adl, hs,
+vars    == <<now, rt, wt, srvIval, kind, status, ticket, armed, adl, hs, owed,
              requests, gen, tmo, handle, task, ready, wl, hc, sc, nops, op, out, ran, errs, q>>
 \* history variables carry nothing the next step depends on
-view    == <<now, rt, wt, srvIval, kind, status, ticket, armed, adl, hs,
+view    == <<now, rt, wt, srvIval, kind, status, ticket, armed, adl, hs, owed,
              requests, gen, tmo, handle, task, ready, wl, hc, sc, nops, errs>>
 
 WishTimeouts == IF WishServer THEN WishFixed \cup {-1} ELSE WishFixed
+
+Lst == CASE LstCode = "-" -> <<>>
+       [] LstCode = "s" -> <<"sync">> [] LstCode = "a" -> <<"async">> [] LstCode = "u" -> <<"susp">>
+       [] LstCode = "us" -> <<"susp", "sync">> [] LstCode = "su" -> <<"sync", "susp">>
+       [] LstCode = "ua" -> <<"susp", "async">> [] LstCode = "au" -> <<"async", "susp">>
+       [] LstCode = "uu" -> <<"susp", "susp">> [] LstCode = "sa" -> <<"sync", "async">>
+ToldEv(i) == IF i = 1 THEN "told1" ELSE "told2"
 
 ENV == [k |-> "env", t |-> 0]
 H(k, t) == [k |-> k, t |-> t]
@@ -137,13 +154,15 @@ A_Create(K, S, e, k, tk, T) ==
    ticket |-> [K.ticket EXCEPT ![e] = tk],
    armed  |-> [K.armed EXCEPT ![e] = (T > 0)],
    adl    |-> [K.adl EXCEPT ![e] = IF T > 0 THEN S + T ELSE 0],
-   hs     |-> K.hs]
+   hs     |-> K.hs,
+   owed   |-> K.owed]
 
-Abs == [kind |-> kind, status |-> status, ticket |-> ticket, armed |-> armed, adl |-> adl, hs |-> hs]
+Abs == [kind |-> kind, status |-> status, ticket |-> ticket, armed |-> armed, adl |-> adl, hs |-> hs,
+        owed |-> owed]
 
 SetAbs(K) ==
   /\ kind' = K.kind /\ status' = K.status /\ ticket' = K.ticket /\ armed' = K.armed /\ adl' = K.adl
-  /\ hs' = K.hs
+  /\ hs' = K.hs /\ owed' = K.owed
 
 \* a reply in flight stops being entitled to a result once the request it was for is gone
 ClearCont(HS, e) == [h \in 1..Len(HS) |-> IF HS[h].cont = e THEN [HS[h] EXCEPT !.cont = 0] ELSE HS[h]]
@@ -166,6 +185,9 @@ A_Credit(K, e) ==
                            ELSE CHOOSE h \in c : \A x \in c : h <= x IN
   IF c = {} THEN K ELSE A_CreditH(K, pick)
 A_ReplyDone(K, h) == [K EXCEPT !.hs[h].open = FALSE]
+\* the removal of e has to be reported to each of the n listeners; listener i has been told
+A_Owe(K, e, n) == [K EXCEPT !.owed = @ \cup {<<e, i>> : i \in 1..n}]
+A_Told(K, e, i) == [K EXCEPT !.owed = @ \ {<<e, i>>}]
 A_Fire(K, e)   == [K EXCEPT !.armed[e] = FALSE]
 A_Arm(K, S, e, T) == [K EXCEPT !.armed[e] = TRUE, !.adl[e] = S + T]
 A_Disarm(K, e) == [K EXCEPT !.armed[e] = FALSE]
@@ -183,7 +205,7 @@ SetMicro(M) == handle' = M.h /\ task' = M.t /\ ready' = M.r
 StartIn(M, e) ==
   LET t == Len(M.t) + 1 IN
   [h |-> [M.h EXCEPT ![e] = t],
-   t |-> Append(M.t, [e |-> e, st |-> "new", mc |-> FALSE, dl |-> 0]),
+   t |-> Append(M.t, [e |-> e, st |-> "new", mc |-> FALSE, dl |-> 0, li |-> 0]),
    r |-> Append(M.r, H("step", t))]
 
 \* Timer.cancel (tasks.py:89-96) -> Task.cancel(): a task waiting for its sleep future gets
@@ -248,7 +270,7 @@ Init ==
   /\ ticket = [e \in Ents |-> 0]
   /\ armed = [e \in Ents |-> FALSE]
   /\ adl = [e \in Ents |-> 0]
-  /\ hs = <<>> /\ hc = <<>> /\ sc = <<>>
+  /\ hs = <<>> /\ hc = <<>> /\ sc = <<>> /\ owed = {}
   /\ requests = {}
   /\ gen = [mgr |-> 1, cli |-> 1]        \* utils.ticket_generator(initial=1): both start at 1
   /\ tmo = [e \in Ents |-> 0]
@@ -475,25 +497,62 @@ RunDue(t) ==
   /\ out' = <<>> /\ ran' = 0 /\ errs' = errs
   /\ Internal /\ UNCHANGED <<abst, requests, handle, wl>>
 
+\* EventBus.emit(SearchRequestRemovedEvent) tells the listeners one after the other inside the
+\* emitting task: from listener i0 on, those before the first one that really suspends are done in
+\* this stretch
+FirstSusp(i0) == IF \E i \in i0..Len(Lst) : Lst[i] = "susp"
+                   THEN CHOOSE i \in i0..Len(Lst) : Lst[i] = "susp" /\ \A j \in i0..(i - 1) : Lst[j] # "susp"
+                   ELSE 0
+DoneNow(i0) == {i \in i0..Len(Lst) : FirstSusp(i0) = 0 \/ i < FirstSusp(i0)}
+ToldSeq(S, e) == (IF 1 \in S THEN <<Ev(ToldEv(1), e)>> ELSE <<>>) \o (IF 2 \in S THEN <<Ev(ToldEv(2), e)>> ELSE <<>>)
+ToldAll(K, e, S) == [K EXCEPT !.owed = @ \ {<<e, i>> : i \in S}]
+
 \* the sleep is over: the callback runs.  For a request this is _timeout_search_request
 \* (manager.py:327-329): `del self.requests[ticket]` - KeyError if the ticket is gone, which
-\* ends the task with an exception nobody retrieves (loop exception handler).
+\* ends the task with an exception nobody retrieves (loop exception handler) - then the removal
+\* is reported.
 RunCallback(t) ==
   /\ t <= Len(task) /\ ready # <<>> /\ Head(ready) = H("step", t) /\ task[t].st = "woken" /\ ~task[t].mc
-  /\ LET e == task[t].e IN
+  /\ LET e == task[t].e
+         present == kind[e] # "bare" /\ HasKey(requests, ticket[e])
+         fs == IF present THEN FirstSusp(1) ELSE 0 IN
        /\ ran' = e
        /\ IF kind[e] = "bare"
             THEN /\ out' = <<Ev("fire", e)>> /\ SetAbs(A_Fire(Abs, e))
                  /\ requests' = requests /\ errs' = errs
-            ELSE IF HasKey(requests, ticket[e])
+            ELSE IF present
               THEN /\ requests' = Del(requests, ticket[e])
-                   /\ out' = <<Ev("removed", e)>> /\ SetAbs(A_Expire(Abs, e))
+                   /\ out' = <<Ev("removed", e)>> \o ToldSeq(DoneNow(1), e)
+                   /\ SetAbs(ToldAll(A_Owe(A_Expire(Abs, e), e, Len(Lst)), e, DoneNow(1)))
                    /\ errs' = errs
               ELSE /\ errs' = errs + 1 /\ out' = <<>>
                    /\ UNCHANGED <<abst, requests>>
-  /\ task' = [task EXCEPT ![t].st = "done"]
-  /\ ready' = Append(Tail(ready), H("cb", t))
-  /\ Internal /\ UNCHANGED <<handle, wl>>
+       \* remove_request(request) instead of `del`: Timer.cancel() on the running task only flags it
+       /\ handle' = IF present /\ TimeoutUsesRemove /\ handle[e] = t THEN [handle EXCEPT ![e] = 0] ELSE handle
+       /\ IF fs = 0
+            THEN /\ task' = [task EXCEPT ![t].st = "done"]
+                 /\ ready' = Append(Tail(ready), H("cb", t))
+            ELSE /\ task' = [task EXCEPT ![t].st = "emit", ![t].li = fs,
+                                         ![t].mc = (present /\ TimeoutUsesRemove /\ handle[e] = t)]
+                 /\ ready' = Append(Tail(ready), H("step", t))
+  /\ Internal /\ UNCHANGED wl
+
+\* the listener that suspended goes on; then the remaining listeners
+RunEmitResume(t) ==
+  /\ t <= Len(task) /\ ready # <<>> /\ Head(ready) = H("step", t) /\ task[t].st = "emit" /\ ~task[t].mc
+  /\ LET e == task[t].e
+         i == task[t].li
+         S == {i} \cup DoneNow(i + 1)
+         fs == FirstSusp(i + 1) IN
+       /\ out' = ToldSeq(S, e)
+       /\ SetAbs(ToldAll(Abs, e, S))
+       /\ IF fs = 0
+            THEN /\ task' = [task EXCEPT ![t].st = "done"]
+                 /\ ready' = Append(Tail(ready), H("cb", t))
+            ELSE /\ task' = [task EXCEPT ![t].li = fs]
+                 /\ ready' = Append(Tail(ready), H("step", t))
+  /\ ran' = 0 /\ errs' = errs
+  /\ Internal /\ UNCHANGED <<requests, handle, wl>>
 
 \* Timer._unset_task (tasks.py:108-110), the done-callback of task t
 RunUnset(t) ==
@@ -598,6 +657,7 @@ Next ==
   \/ \E t \in 1..MaxTasks : RunCancelled(t)
   \/ \E t \in 1..MaxTasks : RunDue(t)
   \/ \E t \in 1..MaxTasks : RunCallback(t)
+  \/ \E t \in 1..MaxTasks : RunEmitResume(t)
   \/ \E t \in 1..MaxTasks : RunUnset(t)
   \/ RunWishlist \/ RunWlDue
 
@@ -613,7 +673,7 @@ TypeOK ==
                      /\ status[e] \in {"unused", "live", "manual", "expired"}
   /\ \A i \in 1..Len(ready) : ready[i].k \in {"env", "step", "due", "cb", "wl", "wldue", "rin", "rres", "sin", "sres"}
   /\ Len(hs) = Len(hc)
-  /\ \A t \in 1..Len(task) : task[t].st \in {"new", "sleep", "woken", "done"}
+  /\ \A t \in 1..Len(task) : task[t].st \in {"new", "sleep", "woken", "emit", "done"}
 
 \* A search result is reported for a request iff the request is still registered and the
 \* result carries its ticket.  For a reply handled at once: exactly one event for the live
@@ -652,6 +712,15 @@ RemovedOnceAtTimeoutA ==
       /\ IsReq(e) /\ status[e] = "live" /\ armed[e] /\ adl[e] = now'
 RemovedOnceAtTimeout == [][RemovedOnceAtTimeoutA]_vars
 \* ... and it is not missed: when the loop is quiescent no pending deadline has passed.
+\* ... to every listener of SearchRequestRemovedEvent, each exactly once, at the timeout
+ToldA ==
+  \A e \in Ents, i \in 1..2 : Has(out', Ev(ToldEv(i), e)) =>
+      /\ CountOf(out', Ev(ToldEv(i), e)) = 1
+      /\ <<e, i>> \notin owed'
+      /\ <<e, i>> \in owed \/ Has(out', Ev("removed", e))
+      /\ adl[e] = now'
+ReportedToEveryListener == [][ToldA]_vars
+AllTold == q => owed = {}
 NoOverdue == q => \A e \in Ents : armed[e] => adl[e] > now
 
 \* A request removed by the user produces no further event ...
